@@ -57,6 +57,7 @@ fn run(name: &str, args: &Value) -> Value {
         "c07_http" => c07::http(args),
         "c19_chunking" => c19::chunking(args),
         "c19_leading_ws" => c19::leading_ws(args),
+        "c19_content_length" => c19::content_length(args),
         "c19_content_types" => c19::content_types(args),
         "c20_script" => c20::script(args),
         "c20_tuple" => c20::tuple(args),
@@ -85,6 +86,7 @@ fn run(name: &str, args: &Value) -> Value {
         "c15_parse" => c15::parse(args),
         "c16_sequence" => c16::sequence(args),
         "c16_whole" => c16::whole(args),
+        "c14_authority_sources" => c14::authority_sources(args),
         "c14_ports" => c14::ports(args),
         "c14_single_entry" => c14::single_entry(args),
         "c09_server_bytes" => c09::server_bytes(args),
